@@ -684,13 +684,13 @@ fn exercise_pattern(ctx: &mut Ctx, pat: &Pattern, names: &[String]) {
         extended.push(witness.replace('-', ""));
         extended.push(format!("{}-", witness));
     }
-    // one long name (4-32 KiB, derived from the pattern text alone): a matcher or a
+    // one long name (8-64 KiB, derived from the pattern text alone): a matcher or a
     // version tokeniser must stay linear in the name - the work meter sees a
     // quadratic copy here although it still finishes in milliseconds
     {
         let h = crate::rng::hash_str(&text);
         let unit: &str = ["a", "1.", "x9", "alpha", ".0", "rc1", "é", "-", "nb"][(h % 9) as usize];
-        let len = 4096 + (h >> 8) as usize % 28672;
+        let len = 8192 + (h >> 8) as usize % 57344;
         let mut long = if witness.is_empty() { String::from("w-") } else { format!("{}-", witness) };
         while long.len() < len {
             long.push_str(unit);
@@ -1934,7 +1934,7 @@ impl Property for C17 {
     }
 
     fn work_factor(&self) -> Option<u64> {
-        Some(2048)
+        Some(4096)
     }
     fn rule(&self) -> String {
         "Each run picks one of four pipelines (A bulk scan -> dependency resolution, B package database -> \
